@@ -255,19 +255,21 @@ def run(ctx):
                 'overlapping matches and 2-character consumption, per-rule protection, 5 schemes, 5 policies, non_ascii_only); '
                 'the real encoder built from the same configuration must give the same output or ValueError and the same '
                 'rule-consultation log. Non-trivial: at least one rule and >= 2 loop steps.')
-    cfgs = make_cfgs(quick)
-    K = 3 if quick else 4
-    m = common.run_shards(ctx, ('harness.c04', 'EncConsumer'), _jobs(cfgs, K, ALPHABET, 2 if quick else 4),
-                          what='EncRun: %d configurations, strings <= %d' % (len(cfgs), K))
-    ctx.add_merged(m)
-    ctx.log('%d configurations x strings <= %d: %d cases, %s' % (len(cfgs), K, m['n'],
-            {k: v for k, v in m['counters'].items() if k.startswith('same')}))
+    # quick: the sampled configuration list on strings <= 3; thorough: every configuration on strings <= 3 and the sampled
+    # list on strings <= 4 (all configurations x strings <= 4 would be 4e7 cases)
+    plans = [(make_cfgs(True), 3, 2)] if quick else [(make_cfgs(False), 3, 8), (make_cfgs(True), 4, 4)]
+    for cfgs, K, nsh in plans:
+        m = common.run_shards(ctx, ('harness.c04', 'EncConsumer'), _jobs(cfgs, K, ALPHABET, nsh),
+                              what='EncRun: %d configurations, strings <= %d' % (len(cfgs), K))
+        ctx.add_merged(m)
+        ctx.log('%d configurations x strings <= %d: %d cases, %s' % (len(cfgs), K, m['n'],
+                {k: v for k, v in m['counters'].items() if k.startswith('same')}))
     c04_extra.run_builtin_tables(ctx)
     c04_extra.run_codepoint_windows(ctx)
     c04_extra.run_helper_histories(ctx)
     c04_extra.run_partial(ctx)
     ctx.exhaustive = True
-    ctx.assumptions += ['regular-expression rules are literals (no zero-width matches); callables consume >= 1 character',
+    ctx.assumptions += ['regular-expression rules are literals, optionally with a look-behind / start-of-string / word-boundary assertion; callables consume >= 1 character',
                         'NFC is modelled for the combining sequences of the model alphabet only']
 
 
